@@ -258,3 +258,23 @@ PROPS["C06"] = dict(
     trusted_base=_C05_MODEL + ["coq/C06/Model.v: RDFC-1.0 sections 4.4-4.8 and canonical N-Quads transcribed from the Recommendation (from memory, no network), the orders it leaves open taken as Heap's order / label order / stable ties"],
     assumptions=["well-formed datasets; the specification's escape table does not include the XML-Char clause of RDF 1.2 N-Quads (U+FFFE/U+FFFF), which could not be checked offline"],
 )
+
+import regex_turtle2coq  # noqa: E402
+
+PROPS["C04"] = dict(
+    level="proof",
+    translators=[regex_turtle2coq.gen_regex_turtle],
+    extra=[regex_turtle2coq.ka_extra],
+    coq_targets=["C04/Model", "C04/Properties"],
+    runs=[dict(bin="c04")],
+    quick=dict(n=2000, shards=16),
+    thorough=dict(n=60000, shards=128, run_timeout=3000, coq_case_timeout=3000),
+    trusted_base=[
+        "model coq/C04/Model.v of the planning phase and statement emission of turtle/src/serializer/_pretty.rs and of get_checked_prefixed_pair (hand-written, terms interned by the harness modulo Term::eq in Term::cmp order)",
+        "INTEGER, DECIMAL, DOUBLE, BOOLEAN, PN_LOCAL regular expressions re-generated from _pretty.rs on every run (lib/regex_turtle2coq.py); Turtle productions [19]-[21], PN_LOCAL etc. transcribed by hand (C04/Grammar.v)",
+        "the text layout, Rio's streaming writer and sophia's Turtle/TriG parsers are exercised by the oracle, not modelled; the tie to the writer is plan-level (labels, number of ( and [) not token-level",
+        "accounting (every quad emitted exactly once) is a verified boolean check evaluated per generated case, not a universal theorem",
+    ],
+    assumptions=["strict RDF / RDF-star input, absolute IRIs (no backslash), distinct prefixes, indentation made of Turtle white space",
+                 "rdf:first and rdf:rest are distinct terms"],
+)
